@@ -200,6 +200,7 @@ pub fn check_exposition(text: &str) -> Result<Vec<Family>, String> {
     let mut pending_help: Option<(String, String)> = None;
     let mut typed: std::collections::HashSet<String> = Default::default();
     let mut seen_series: std::collections::HashSet<String> = Default::default();
+    let mut owner: std::collections::HashMap<String, String> = Default::default(); // sample name ↦ family
     let body = if text.is_empty() { "" } else { &text[..text.len() - 1] };
     if text.is_empty() {
         return Ok(fams);
@@ -217,6 +218,9 @@ pub fn check_exposition(text: &str) -> Result<Vec<Family>, String> {
             PLine::Type { name, ty } => {
                 if !typed.insert(name.clone()) {
                     return Err(format!("line {}: second TYPE line for family {}", ln + 1, name));
+                }
+                if let Some(o) = owner.get(&name) {
+                    return Err(format!("line {}: TYPE line for {}, which is already a sample name of family {}", ln + 1, name, o));
                 }
                 let help = match pending_help.take() {
                     Some((hn, doc)) => {
@@ -242,6 +246,30 @@ pub fn check_exposition(text: &str) -> Result<Vec<Family>, String> {
                         fam.name,
                         fam.ty
                     ));
+                }
+                // a sample name belongs to one family only (`a_sum` of summary `a` vs. a gauge family `a_sum`)
+                match owner.get(&name) {
+                    Some(o) if *o != fam.name => {
+                        return Err(format!(
+                            "line {}: sample name {} is used by family {} and by family {}",
+                            ln + 1,
+                            name,
+                            o,
+                            fam.name
+                        ));
+                    }
+                    Some(_) => {}
+                    None => {
+                        if name != fam.name && typed.contains(&name) {
+                            return Err(format!(
+                                "line {}: sample name {} of family {} is also the name of another family",
+                                ln + 1,
+                                name,
+                                fam.name
+                            ));
+                        }
+                        owner.insert(name.clone(), fam.name.clone());
+                    }
                 }
                 let mut names: Vec<&str> = labels.iter().map(|(k, _)| k.as_str()).collect();
                 names.sort();
